@@ -11,11 +11,17 @@ Fixpoint zlist_eqb (a b:list Z) : bool :=
   | _, _ => false
   end.
 
+(* -99 in a model output = the model ran out of its fuel (FFuel / OutOfFuel): such a case decides
+   nothing; it is reported as k + 1000000 so that the harness can count it separately *)
+Definition out_of_fuel (l:list Z) : bool := existsb (Z.eqb (-99)) l.
 Fixpoint mismatches_from {A} (f:A -> list Z) (cases:list (A * list Z)) (k:N) : list N :=
   match cases with
   | [] => []
-  | (x, out) :: t => if zlist_eqb (f x) out then mismatches_from f t (N.succ k)
-                     else k :: mismatches_from f t (N.succ k)
+  | (x, out) :: t =>
+    let r := f x in
+    if zlist_eqb r out then mismatches_from f t (N.succ k)
+    else if out_of_fuel r then (k + 1000000)%N :: mismatches_from f t (N.succ k)
+    else k :: mismatches_from f t (N.succ k)
   end.
 Definition mismatches {A} (f:A -> list Z) (cases:list (A * list Z)) : list N := mismatches_from f cases 0%N.
 
